@@ -454,6 +454,11 @@ func c08StreamLogger(w *World, r *Report) {
 		res := rres(path, ret)[1]
 		if isNilConst(res) {
 			bad = "a failed or short write is reported as success"
+		} else if res == eV {
+			// the write's own error: this must be the exit on which it was found non-nil (not the short-write exit)
+			if !pathAsserts(path, func(c ssa.Value, truth bool) bool { return assertsNonNil(c, truth, eV) }) {
+				bad = "a short write is reported with the write's nil error: as success"
+			}
 		} else if res != eV {
 			if u, ok := res.(*ssa.UnOp); !ok || func() bool { g, ok := u.X.(*ssa.Global); return !ok || g.Name() != "ErrShortWrite" }() {
 				bad = "a failed write returns an unrelated value"
